@@ -310,12 +310,20 @@ def indexFiles (u : Upload) (user : Bytes) : Nat → List FileIn → Option Uplo
     | none => none
     | some u => indexFiles u user (i + 1) fs
 
+/-- `SELECT UploadID FROM Uploads ORDER BY Day DESC, Seq DESC LIMIT 1`: the newest upload -/
+def newestUpload : List UploadRow → Option UploadRow
+  | [] => none
+  | u :: rest =>
+    match newestUpload rest with
+    | none => some u
+    | some v => if newer v u then some v else some u
+
 /-- `NewUpload`: the id is `day.N`, N one more than the newest upload's number when that upload is of
 the same day -/
 def nextSeq (db : DB) (day : Bytes) : Nat :=
-  match sortNewer (db.uploads.map fun u => (u, 0)) with
-  | [] => 1
-  | (last, _) :: _ => if hasPrefix last.id day then last.seq + 1 else 1
+  match newestUpload db.uploads with
+  | none => 1
+  | some last => if hasPrefix last.id day then last.seq + 1 else 1
 
 /-- one upload request: the Uploads row is committed first (an id that already exists violates the
 primary key of Uploads: `NewUpload` fails and nothing changes); the records only if every file
